@@ -64,6 +64,7 @@ type runner struct {
 	rd   *reader
 	rdSt string // idle | open | done
 	rdEr bool
+	pok  string // answer of the part store to the open released by this step: ok | missing | none
 	prog int
 }
 
@@ -150,7 +151,10 @@ func (r *runner) rdView() map[string]any {
 
 func (r *runner) emit(c call, res string) {
 	rec := map[string]any{"e": c.Op, "k": c.K, "c": c.C, "s": c.S, "u": c.U, "n": c.N, "src": c.Src, "j": c.J, "res": res,
-		"prog": r.prog, "stack": r.e.stack, "mode": r.mode}
+		"prog": r.prog, "stack": r.e.stack, "mode": r.mode, "pok": "none"}
+	if (c.Op == "RdOpen" || c.Op == "RdRead") && r.pok != "" {
+		rec["pok"] = r.pok
+	}
 	rec["st"] = r.e.observe()
 	rec["gc"] = r.gcView()
 	rec["rd"] = r.rdView()
@@ -264,6 +268,21 @@ func (r *runner) exec(c *call) string {
 			delete(e.upl, c.U)
 		}
 		return errRes(err)
+	case "OrphanMany":
+		// N parts without metadata, written through the real part store in one transaction
+		must(database.WithTx(ctx, e.db, &sql.TxOptions{ReadOnly: false}, func(ctx context.Context, tx database.Tx) error {
+			for i := 0; i < c.N; i++ {
+				id, err := partstore.NewRandomPartId()
+				if err != nil {
+					return err
+				}
+				if err := e.inner[c.S].PutPart(ctx, tx, *id, bytes.NewReader(contentBytes(c.C))); err != nil {
+					return err
+				}
+			}
+			return nil
+		}))
+		return "ok"
 	case "Orphan":
 		// a part without metadata, written through the real part store in its own transaction
 		id, err := partstore.NewRandomPartId()
@@ -300,7 +319,7 @@ func (r *runner) exec(c *call) string {
 		}
 		r.rd = r.sc.rdStart(e, r.mode, c.K)
 		m := r.sc.rdWait()
-		if m.gate == "open" {
+		if m.gate == "open" || m.gate == "read" {
 			r.rdSt, r.rdEr = "open", false
 			return "ok"
 		}
@@ -308,23 +327,24 @@ func (r *runner) exec(c *call) string {
 		r.closeReader()
 		r.rdSt = "idle"
 		return errRes(m.err)
-	case "RdOpen":
+	case "RdOpen", "RdRead":
+		// release the session from whatever gate it is parked at and follow it to
+		// its next gate or to the end of the body
 		if r.rdSt != "open" {
 			return "skipped"
 		}
+		c.Op, c.N = r.sc.lastRdGate, e.ids[r.sc.rdGateID]
+		r.sc.lastOpened = nil
 		r.sc.rdRel <- struct{}{}
 		m := r.sc.rdWait()
-		if m.gate == "read" {
-			return "opened"
+		r.pok = "none"
+		if lo := r.sc.lastOpened; lo != nil && c.Op == "RdOpen" {
+			r.pok = "missing"
+			if lo.ok {
+				r.pok = "ok"
+			}
 		}
-		return r.finishReader(m)
-	case "RdRead":
-		if r.rdSt != "open" {
-			return "skipped"
-		}
-		r.sc.rdRel <- struct{}{}
-		m := r.sc.rdWait()
-		if m.gate == "open" {
+		if m.gate == "open" || m.gate == "read" {
 			return "more"
 		}
 		return r.finishReader(m)
@@ -412,7 +432,10 @@ func (e *env) partRange(k string, j int) (int64, int64, bool) {
 func (r *runner) drain() {
 	if r.sc.slowActive {
 		c := call{Op: "PutCommit"}
-		r.emit(c, r.step(&c))
+		{
+			res := r.step(&c)
+			r.emit(c, res)
+		}
 	}
 	for r.rdSt != "idle" {
 		op := "RdClose"
@@ -422,11 +445,17 @@ func (r *runner) drain() {
 			op = r.sc.lastRdGate
 		}
 		c := call{Op: op}
-		r.emit(c, r.step(&c))
+		{
+			res := r.step(&c)
+			r.emit(c, res)
+		}
 	}
 	for r.sc.gcRunning {
 		c := call{Op: "Gc"}
-		r.emit(c, r.step(&c))
+		{
+			res := r.step(&c)
+			r.emit(c, res)
+		}
 	}
 }
 
@@ -469,7 +498,7 @@ func (r *runner) runProgram(p program) {
 				continue
 			}
 		case "Put", "Delete", "Copy", "Transition", "CreateUpload", "UploadPart", "UploadPartCopy", "Complete", "Abort",
-			"Orphan", "RegDrop", "RegOver", "PutBegin":
+			"Orphan", "OrphanMany", "RegDrop", "RegOver", "PutBegin":
 			if r.sc.slowActive {
 				continue // would wait for the writer lock of the parked slow put
 			}
@@ -486,19 +515,31 @@ func (r *runner) runProgram(p program) {
 			// may need fewer steps than the model's, so a generated "Gc" can start one)
 			if !r.sc.gcRunning {
 				tk := call{Op: "Tick"}
-				r.emit(tk, r.step(&tk))
+				{
+					res := r.step(&tk)
+					r.emit(tk, res)
+				}
 			}
 		}
-		r.emit(c, r.step(&c))
+		{
+			res := r.step(&c)
+			r.emit(c, res)
+		}
 	}
 	r.drain()
 	// C09: quiescence, grace window, two collector passes, then the final state
 	for pass := 0; pass < 2; pass++ {
 		c := call{Op: "Tick"}
-		r.emit(c, r.step(&c))
+		{
+			res := r.step(&c)
+			r.emit(c, res)
+		}
 		for first := true; first || r.sc.gcRunning; first = false {
 			c := call{Op: "Gc"}
-			r.emit(c, r.step(&c))
+			{
+				res := r.step(&c)
+				r.emit(c, res)
+			}
 		}
 	}
 	r.emit(call{Op: "Final"}, "final")
